@@ -11,6 +11,7 @@ from vlib.runner import SubProp, Violation
 from mir_eval import chord, hierarchy, segment
 
 PROPERTY_ID = "C12"
+SCALE = (4, 5)   # budget multiplier (quick, thorough) applied to the n=(...) of every generated sub-property
 LEVEL = "exploration"
 RULE = ("chord / segment / one- or multi-level hierarchy annotations on a 1/8 s lattice and a refinement of them: every interval cut at 0-3 interior "
         "lattice points, the pieces keep the label, independently for reference and estimate; chord labels include N, X and extended chords that "
